@@ -63,6 +63,37 @@ def _get_qiskit_gates():
     return {"ch": ch, "tdg": tdg, "id": id, "u2": u2, "sdg": sdg, "cu3": cu3}
 
 
+# Number of parameters and of qubit arguments of the gates that are available
+# without a definition in the QASM file ("U", "CX" and the gates of qelib1.inc).
+_PREDEFINED_GATE_SIGNATURES = {
+    "U": (3, 1),
+    "CX": (0, 2),
+    "u3": (3, 1),
+    "u2": (2, 1),
+    "u1": (1, 1),
+    "cx": (0, 2),
+    "id": (0, 1),
+    "x": (0, 1),
+    "y": (0, 1),
+    "z": (0, 1),
+    "h": (0, 1),
+    "s": (0, 1),
+    "sdg": (0, 1),
+    "t": (0, 1),
+    "tdg": (0, 1),
+    "rx": (1, 1),
+    "ry": (1, 1),
+    "rz": (1, 1),
+    "cz": (0, 2),
+    "cy": (0, 2),
+    "ch": (0, 2),
+    "ccx": (0, 3),
+    "crz": (1, 2),
+    "cu1": (1, 2),
+    "cu3": (3, 2),
+}
+
+
 def _tokenize_line(command):
     """
     Tokenize (break into several parts a string of) a single line of QASM code.
@@ -230,8 +261,11 @@ class QasmProcessor:
         # custom defined gates from `qelib1.inc` (added later).
         self.gate_names = deepcopy(self.predefined_gates)
         for gate in self.predefined_gates:
+            n_args, n_regs = _PREDEFINED_GATE_SIGNATURES[gate]
             self.qasm_gates[gate] = QasmGate(
-                "U", ["alpha", "beta", "gamma"], ["q"]
+                gate,
+                ["p{}".format(i) for i in range(n_args)],
+                ["q{}".format(i) for i in range(n_regs)],
             )
         self.commands = commands
 
@@ -330,6 +364,24 @@ class QasmProcessor:
                     name = command[0]
                     gate_args, gate_regs = _gate_processor(command)
                     gate_added = self.qasm_gates[name]
+                    if len(gate_args) != len(gate_added.gate_args) or len(
+                        gate_regs
+                    ) != len(gate_added.gate_regs):
+                        raise ValueError(
+                            "QASM: wrong number of arguments for gate "
+                            "{} in the definition of {}".format(
+                                name, curr_gate.name
+                            )
+                        )
+                    if len(set(gate_regs)) != len(gate_regs) or not set(
+                        gate_regs
+                    ) <= set(curr_gate.gate_regs):
+                        raise ValueError(
+                            "QASM: invalid qubit arguments for gate "
+                            "{} in the definition of {}".format(
+                                name, curr_gate.name
+                            )
+                        )
                     curr_gate.gates_inside.append([name, gate_args, gate_regs])
             elif command[0] == "gate":
                 # Custom definition of gates.
@@ -786,8 +838,31 @@ class QasmProcessor:
             (i.e. all classical controls are 1).
         """
 
+        if command[0] not in self.gate_names:
+            err = "QASM: {} is not a valid QASM command.".format(command[0])
+            raise SyntaxError(err)
         args, regs = _gate_processor(command)
         reg_set = self._regs_processor(regs, "gate")
+        gate_defn = self.qasm_gates[command[0]]
+        if len(args) != len(gate_defn.gate_args):
+            raise ValueError(
+                "QASM: gate {} takes {} parameters".format(
+                    command[0], len(gate_defn.gate_args)
+                )
+            )
+        for regs in reg_set:
+            if len(regs) != len(gate_defn.gate_regs):
+                raise ValueError(
+                    "QASM: gate {} acts on {} qubits".format(
+                        command[0], len(gate_defn.gate_regs)
+                    )
+                )
+            if len(set(regs)) != len(regs):
+                raise ValueError(
+                    "QASM: gate {} is applied to a repeated qubit".format(
+                        command[0]
+                    )
+                )
 
         if args:
             gate_name = "{}({})".format(command[0], ",".join(args))
